@@ -431,6 +431,51 @@ def _t1(ctx: Context) -> None:
              ctx.loc(f, bad[0] if bad else kn))
 
 
+def _remainder_fragments(ctx: Context, f, cfg) -> None:
+    """A length byte computed as a remainder (`len(v) % K`, `divmod(len(v), K)[1]`) is 0 for every exact multiple of K:
+    emitting it unguarded produces an extra zero-length fragment (and `v[-0:]` is the whole value, not nothing)."""
+    ck = ctx.ck
+    rem: dict[str, tuple] = {}  # local name -> (defining node, K expr)
+    for n in cfg.nodes:
+        a = n.ast
+        if n.kind != "stmt" or not isinstance(a, ast.Assign) or len(a.targets) != 1:
+            continue
+        tg, v = a.targets[0], a.value
+        if isinstance(tg, ast.Tuple) and len(tg.elts) == 2 and isinstance(tg.elts[1], ast.Name) and isinstance(v, ast.Call) \
+                and isinstance(v.func, ast.Name) and v.func.id == "divmod" and len(v.args) == 2:
+            rem[tg.elts[1].id] = (n, v.args[1])
+        elif isinstance(tg, ast.Name) and isinstance(v, ast.BinOp) and isinstance(v.op, ast.Mod):
+            rem[tg.id] = (n, v.right)
+    for n in cfg.nodes:
+        for c in ctx.calls(n):
+            if not (isinstance(c.func, ast.Attribute) and c.func.attr == "append" and len(c.args) == 1):
+                continue
+            a0 = c.args[0]
+            name = a0.id if isinstance(a0, ast.Name) and a0.id in rem else None
+            if name is None and not (isinstance(a0, ast.BinOp) and isinstance(a0.op, ast.Mod)):
+                continue
+            nonzero = []
+            if name is not None:
+                for tn in cfg.nodes:
+                    if tn.kind != "test":
+                        continue
+                    e = tn.exprs[0]
+                    if isinstance(e, ast.Name) and e.id == name:
+                        nonzero += ctx.edges(cfg, tn, "T")
+                    cp = compare_parts(e)
+                    if cp and isinstance(cp[0], ast.Name) and cp[0].id == name and ctx.const(f, cp[2], None) == 0:
+                        if cp[1] in ("Gt", "NotEq"):
+                            nonzero += ctx.edges(cfg, tn, "T")
+                        elif cp[1] in ("Eq", "LtE"):
+                            nonzero += ctx.edges(cfg, tn, "F")
+            p = cfg.find_path(cfg.entry.id, n.id, avoid_edges=nonzero)
+            ck.check("C15.K1", p is None, "encode_list: a remainder is announced as a fragment length only when it is not zero",
+                     f"{ctx.fkey(f)}:zero-length-fragment",
+                     f"encode_list: `{n.text()}` announces a remainder as the length of the last fragment without testing it for zero: a value whose "
+                     "length is an exact multiple of the fragment size gets an extra zero-length fragment (and a slice `value[-0:]` is the whole value)",
+                     ctx.loc(f, n), cfg.render_path(p) if p else None)
+
+
 def _k1(ctx: Context) -> None:
     ck = ctx.ck
     f = ctx.func(f"{TLVC}.encode_list")
@@ -449,6 +494,7 @@ def _k1(ctx: Context) -> None:
             k = ctx.const(f, r, None)
             if isinstance(k, int) and k > 0:
                 frag.append((n, k if op == "Gt" else k - 1, l.args[0]))
+    _remainder_fragments(ctx, f, cfg)
     if len(frag) != 1:
         ck.unknown("C15.K1", f"encode_list: expected one fragment-size test `len(value) > K`, found {len(frag)}", f.loc())
         return
